@@ -25,7 +25,7 @@ def replay(spec: dict) -> list:
         from . import famcheck
         from .refpeg import Ref
 
-        member = {"text": spec["grammar"], "rules": [_tup(r) for r in spec["rules"]], "features": set(spec["features"])}
+        member = {"text": spec["grammar"], "rules": [_tup(r) for r in spec["rules"]], "features": set(spec["features"]), "tags": set(spec.get("tags", ["tg"]))}
         modes = famcheck.Modes(member["text"], spec["modes"])
         ref = Ref(member["rules"]) if spec.get("use_ref") else None
         c = famcheck.Case(spec["prop"], member, spec["rule"], len(spec["text"]), spec["k"], spec["text"], modes, ref).run()
